@@ -528,6 +528,7 @@ class Gen:
             self.stat('file:topath')
             if self.r.randrange(3) == 0:
                 self.emit('set 0 protocol %s' % self.arg('http'))
+                self.emit('topath %s 0' % self.pick(['posix', 'windows']))
             return
         # round trip: the URL just produced back to a path (slot-less op keeps it simple: parse into slot 0)
         # (frompath prints the URL; topath needs a slot, so repeat through parse of the href on the model side is not
